@@ -143,9 +143,19 @@ func runBase(s *big.Int, path int, want ref.Pt) string {
 
 // runBaseAliased: receiver pre-loaded with another point (must not matter).
 func runBaseRecv(s *big.Int, want ref.Pt) string {
-	v := lib.MkPTRep(ref.G().Mul(big.NewInt(5)), big.NewInt(9))
-	v.ScalarBaseMult(lib.MkSC(s))
-	return lib.CheckPointLight(v, want)
+	for h := 0; h < lib.NumReceiverHistories; h++ { // whatever the receiver held or went through before
+		v := lib.ReceiverWithHistory(h)
+		v.ScalarBaseMult(lib.MkSC(s))
+		if m := lib.CheckPointLight(v, want); m != "" {
+			return fmt.Sprintf("receiver with history %d (0 zero value, 1 computed point, 2 receiver of failed decodes, 3 identity): %s", h, m)
+		}
+		w := lib.ReceiverWithHistory(h)
+		w.DoubleScalarMultBasepointVartime(lib.MkSC(s), secp256k1.NewScalar(), secp256k1.NewGeneratorPoint())
+		if m := lib.CheckPointLight(w, want); m != "" {
+			return fmt.Sprintf("variable-time path, receiver with history %d: %s", h, m)
+		}
+	}
+	return ""
 }
 
 func runEntry(huge bool, i, j int) string {
